@@ -135,7 +135,8 @@ def build(job):
             parent = api.Converter([api.Record(**r.kwargs()) for r in recs])
         P = [eng.var(f"s{i}") for i in range(params["k"])]
         before = snapshot_records(parent)
-        subc = parent.get_subconverter(P)
+        kind = eng.choice("subset_as", ["list", "iter"])       # get_subconverter takes any Iterable[str]
+        subc = parent.get_subconverter(iter(list(P)) if kind == "iter" else list(P))
         eng.expect(records_eq(before, snapshot_records(parent)), "get_subconverter changed its parent")
         ident = eng.var("ident")
         for r in recs:
